@@ -37,7 +37,7 @@ SYNTH = [
 
 def budget(tier: str) -> int:
     """generated cases"""
-    return 1400 if tier == "quick" else 48000
+    return 1400 if tier == "quick" else 24000
 
 
 def corpus_items(tier: str) -> list:
